@@ -35,7 +35,7 @@ def _dy(v):
 
 def _build(mp, spec, hp):
     """exact construction of a number from a small spec, at precision hp (returns an mpf).  spec forms:
-       ["mpf", m, e] | ["q", p, q] | ["sqrt", k] | ["pi"] | ["e"] | ["log", k] | ["exp", p, q] | ["root", k, n]
+       ["mpf", m, e] | ["q", p, q] | ["sqrt", k] | ["pi"] | ["e"] | ["log", k] | ["exp", p, q] | ["expof", spec] | ["root", k, n]
        | ["lin", [[p,q,spec],...]] | ["mul", spec, spec] | ["polyroot", [a_d..a_0], guess_p, guess_q]
        | ["rand", seed_int]  (a 'generic' real: the fractional bits of sqrt of a large prime-ish seed)"""
     t = spec[0]
@@ -58,6 +58,8 @@ def _build(mp, spec, hp):
             return mp.exp(mp.mpf(int(spec[1])) / int(spec[2]))
         if t == "root":
             return mp.root(int(spec[1]), int(spec[2]))
+        if t == "expof":
+            return mp.exp(_build(mp, spec[1], hp))
         if t == "lin":
             s = mp.mpf(0)
             for p, q, sp in spec[1]:
@@ -390,6 +392,11 @@ class RelGen:
             "pi^2": (["lin", [[p, q, ["mul", ["pi"], ["pi"]]]]], ["pi"]),
             "exp(rational)": (["exp", p % 7 + 1, q], ["e"]),
             "exp(rational)-noconst": (["exp", p % 7 + 1, q], []),
+            # pure and mixed quadratic surds of EITHER sign behind identify's logarithmic transforms (quadraticstring's four
+            # sign / b == 0 branches are only reached with the nearer root negative through these)
+            "exp(-surd)": (["expof", ["lin", [[-(p % 3 + 1), q % 3 + 1, ["sqrt", k]]]]], []),
+            "exp(surd)": (["expof", ["lin", [[p % 3 + 1, q % 3 + 1, ["sqrt", k]]]]], []),
+            "exp(rational-surd)": (["expof", ["lin", [[p % 3 + 1, q % 4 + 1, ["q", 1, 1]], [-1, q % 3 + 1, ["sqrt", k]]]]], []),
             "log-combination": (["lin", [[p, q, ["log", 2]], [q, 7, ["log", 3]]]], ["log(2)", "log(3)"]),
             "pi+e": (["lin", [[p, q, ["pi"]], [q, 7, ["e"]]]], ["pi", "e"]),
             "sqrt-const": (["lin", [[p, q, ["sqrt", 2]], [q, 5, ["q", 1, 1]]]], ["sqrt(2)"]),
